@@ -224,12 +224,17 @@ func concExplore(sc concScenario, deadline time.Time, free bool) (res concResult
 		return res, err
 	}
 	var want [2]string
+	res = concResult{Fails: map[string][2]string{}, Choices: map[string][]int{}}
 	for round := 0; round < 2; round++ {
 		for i := 0; i < 2; i++ {
-			want[i] = e.rawCall(toArgs(sc.Args[i], false))
+			g := runner.Guard(func() { want[i] = e.rawCall(toArgs(sc.Args[i], false)) })
+			if g.Kind != "ok" {
+				// the solo call itself crashes: that is the sequential part's finding; nothing to compare
+				res.Fails[sc.Path+" "+coarsePanic(g.PanicKey)+g.Kind] = [2]string{"no-crash", "solo call of " + sc.label() + " crashed: " + g.PanicMsg}
+				return res, nil
+			}
 		}
 	}
-	res = concResult{Fails: map[string][2]string{}, Choices: map[string][]int{}}
 	var got [2]string
 	cfg := &sched.Config{Name: sc.label(), Bound: -1, MaxExecs: 200000, Deadline: deadline}
 	cfg.Setup = func() []sched.Body {
